@@ -89,7 +89,37 @@ def _regex_sub(ex, st, args, kwargs, fn):
 # ---------------------------------------------------------------------------------------------- misc builtins
 @lib("super")
 def _super(ex, st, args, kwargs, fn):
-    return [(st, Opaque("super"))]
+    """zero-argument super() inside a method: remembers the class the method was found in and `self`"""
+    cls = st.frame.self_cls
+    self_ref = st.frame.locals.get("self")
+    return [(st, Opaque("super", {"cls": cls, "self": self_ref}))]
+
+
+def _super_attr(ex, st, v, attr):
+    """super().name: the method `name` of the next class in the MRO of type(self) after the defining class, bound to
+    self.  Parents outside the repository (lark's Transformer, ABC, Exception, object): only `__init__`, which is taken
+    to set no attribute that the library's code reads (A-LARK-FOLD / A-STDLIB)."""
+    from pyvc.values import FuncV, Unsupported
+    data = v.data if isinstance(v.data, dict) else {}
+    cls, self_ref = data.get("cls"), data.get("self")
+    if cls is not None and isinstance(self_ref, Ref):
+        obj_cls = st.heap[self_ref.oid].cls or cls
+        mro = ex.repo.mro(obj_cls)
+        after = mro[mro.index(cls) + 1:] if cls in mro else []
+        for c in after:
+            ci = ex.repo.cls(c)
+            if ci is not None and attr in ci.methods:
+                fv = FuncV(ci.methods[attr], ci.module, f"{ci.module.name}:{ci.name}.{attr}", cls=ci.name)
+                return [(st, fv.bind(self_ref))]
+            if ci is None:
+                break  # a parent whose source is not loaded: below
+    if attr == "__init__":
+        used(ex, "A-STDLIB/A-LARK: __init__ of base classes outside the repository sets nothing the library reads")
+        return [(st, BuiltinV("super.__init__()", None))]
+    raise Unsupported(f"super().{attr} of a parent class outside the repository")
+
+
+ATTR_LIBRARY["super.*"] = _super_attr
 
 
 @lib("super.__init__()")
